@@ -15,6 +15,9 @@ for _n, _q, _t, _f in [("ctx", 20000, 200000, False), ("aes", 1500, 20000, True)
 # the same library built with -O2 -flto (whole-library optimisation at link time)
 for _n, _q, _t, _f in [("ctx", 20000, 200000, False), ("aes", 1500, 20000, True)]:
     SUBS.append(dict(name=_n + "-LTO", fork=_f, quick=dict(cases=_q, shards=1), thorough=dict(cases=_t, shards=2)))
+# the inspected call is the first library activity of its process
+SUBS.append(dict(name="first", fork=True, quick=dict(cases=700, shards=2), thorough=dict(cases=8000, shards=2)))
+SUBS.append(dict(name="first-O2", fork=True, quick=dict(cases=700, shards=2), thorough=dict(cases=8000, shards=2)))
 # long streams (>= 2^32 bits through the context): a handful of cases, each a few CPU-seconds
 SUBS.append(dict(name="ctxlong", quick=dict(cases=1, shards=2), thorough=dict(cases=8, shards=4)))
 SUBS.append(dict(name="ctxlong-O2", quick=dict(cases=1, shards=2), thorough=dict(cases=8, shards=4)))
